@@ -49,7 +49,7 @@ except ImportError:
 hooks = subprocess.run(["git","-C","/repo","log","--format=%h %s","--grep=^verif hooks"],capture_output=True,text=True).stdout.strip().split("\n")
 m = {
  "version": 1,
- "setup_cmd": "cd /verif/harness && GOFLAGS=-mod=mod GOPROXY=off GOSUMDB=off GOTOOLCHAIN=local go build ./... && command -v tlc >/dev/null && command -v git >/dev/null",
+ "setup_cmd": "cd /verif/harness && GOFLAGS=-mod=mod GOPROXY=off GOSUMDB=off GOTOOLCHAIN=local go build -tags verif ./... && command -v tlc >/dev/null && command -v git >/dev/null",
  "hooks": {
    "guard": "verif (Go build tag)",
    "enable": "go build -tags verif (harness and git-sizer are rebuilt from /repo's working tree by ./check)",
